@@ -129,9 +129,24 @@ func (p c11) run(c *core.C, cs c11Case) {
 		if !armored {
 			// treated as unsigned input: never a signer
 			if res.signer != nil {
-				c.Failf("%s reports a signer for input that does not start with the OpenPGP armor (fault %s)", name, cs.Fault)
+				// fine only if what was verified is a clearsigned block that follows nothing but white space (a reader may
+				// skip a BOM or blank lines in front of the armor) and the signer is the one who signed it
+				j := bytes.Index(cs.Input, []byte("-----BEGIN PGP SIGNED MESSAGE-----"))
+				lead := ""
+				if j >= 0 {
+					lead = strings.TrimSpace(strings.TrimPrefix(string(cs.Input[:j]), "\xef\xbb\xbf"))
+				}
+				ok2, paras2, id2 := false, []model.RefPara(nil), uint64(0)
+				if j >= 0 && lead == "" {
+					ok2, paras2, id2, _ = c11Reference(cs.Input[j:], keyring)
+				}
+				if !ok2 || res.signer.PrimaryKey.KeyId != id2 || (res.ok && paras2 != nil && diffParas(res.paras, paras2) != "") {
+					c.Failf("%s reports a signer for input that does not start with the OpenPGP armor and is not a verifiable clearsigned block behind white space (fault %s)", name, cs.Fault)
+				}
+				c.Cover("unsigned:armor-behind-white-space-verified")
+			} else {
+				c.Cover("unsigned:no-signer")
 			}
-			c.Cover("unsigned:no-signer")
 			// a clearsigned block with foreign text in front of it: whatever the reader makes of that, what it hands
 			// out with a keyring supplied may only be the verified signed text - never the foreign text, never
 			// the block's text unverified
@@ -382,8 +397,9 @@ func (p c11) RunBatch(t *core.T, b core.Batch) {
 			for tag, in := range sp {
 				fault := tag
 				if tag == "splice:text-after-end" || tag == "splice:foreign-block-after" || tag == "splice:duplicate-signature" {
-					// text after the signed block does not invalidate the block; it must simply never reach the caller
-					fault = "none"
+					// text after the signed block must never reach the caller; whether the document is still accepted
+					// (with exactly the signed text) or refused on account of the junk is the reader's choice
+					fault = "trailing:" + tag
 				}
 				p.emit(t, c11Case{Input: []byte(in), Keyring: kr, Fault: fault}, tag)
 			}
